@@ -139,9 +139,9 @@ ensures
 requires
     old(self).inv(),
     face_triangle_index <= 9,
-    origin_id < 12,     // forward() checks it; inverse()'s callers pass decoded face ids (obligation in unit glue)
 ensures
     final(self).inv(),                                                                                       // [C13:get_spherical_triangle.invariant]
+    origin_id >= 12 ==> res is Err,                                                                          // [C13,C14:get_spherical_triangle.rejects-unknown-face]
     res is Ok ==> res->Ok_0 == spec_st(face_triangle_index as int, origin_id as int, reflected),   // [C13:get_spherical_triangle.history-independent]
     forall|k: int| 0 <= k < 240 && k != 10 * origin_id + face_triangle_index + (if reflected { 120int } else { 0int })
         ==> final(self).st_slots()[k] == old(self).st_slots()[k],                                           // [C13:get_spherical_triangle.frame-slots]
@@ -164,9 +164,9 @@ ensures
 //@spec
 requires
     old(self).inv(),
-    origin_id < 12,      // its callers pass decoded face ids (obligation in unit glue: dodecahedron_inverse requires origin_id < 12)
 ensures
     final(self).inv(),                                                                                       // [C13:inverse.invariant]
+    origin_id >= 12 ==> res is Err,                                                                          // [C13,C14:inverse.rejects-unknown-face]
     res is Ok ==> res->Ok_0 == spec_inverse(face, origin_id),                                               // [C13:inverse.history-independent]
 //@end
 }
